@@ -294,10 +294,14 @@ func init() {
 						}
 						g = append(g, fsx.Op{K: "Symlink", P: t, Q: fmt.Sprintf("/w/e%d", i)})
 					}
+					// a link inside the directory: the last element of a path whose directory part uses up the budget
+					// (a final link that is not followed does not count: Lstat and Readlink behind 40 links succeed)
+					g = append(g, fsx.Op{K: "Symlink", P: "/w/f", Q: "/w/d/lnk"})
 					if !c04Build(l, g) {
 						continue
 					}
-					for _, o := range []fsx.Op{{K: "Stat", P: "/w/c0"}, {K: "ReadFile", P: "/w/c0"}, {K: "EvalSymlinks", P: "/w/c0"}, {K: "Lstat", P: "/w/c0"}, {K: "Stat", P: "/w/e0/x"}, {K: "ReadDir", P: "/w/e0"}, {K: "EvalSymlinks", P: "/w/e0"}} {
+					for _, o := range []fsx.Op{{K: "Stat", P: "/w/c0"}, {K: "ReadFile", P: "/w/c0"}, {K: "EvalSymlinks", P: "/w/c0"}, {K: "Lstat", P: "/w/c0"}, {K: "Stat", P: "/w/e0/x"}, {K: "ReadDir", P: "/w/e0"}, {K: "EvalSymlinks", P: "/w/e0"},
+						{K: "Lstat", P: "/w/e0/lnk"}, {K: "Readlink", P: "/w/e0/lnk"}, {K: "Stat", P: "/w/e0/lnk"}, {K: "ReadFile", P: "/w/e0/lnk"}, {K: "EvalSymlinks", P: "/w/e0/lnk"}, {K: "Lstat", P: "/w/e1/lnk"}, {K: "Stat", P: "/w/e1/lnk"}} {
 						sr := l.stepQuery(o)
 						sr.sig = fmt.Sprintf("chain=%d|", n) + sr.sig
 						l.report(0o022, sr, false)
